@@ -17,7 +17,7 @@ RULE = (
     "A case is one call of the real EvalScript (bare script + initial stack, sigversion BASE / WITNESS_V0 / TAPSCRIPT, no transaction: "
     "signature and lock checks fail) or VerifyScript (scriptSig, scriptPubKey, witness, a real transaction with 1-3 inputs, "
     "TransactionSignatureChecker with spent outputs) under a random VALID flag combination (CLEANSTACK=>P2SH&WITNESS, WITNESS=>P2SH). "
-    "Generator families: op1 (cases 0..511 sweep all 256 opcode values twice, then random: one opcode on operands from boundary pools: empty, "
+    "Cases 512..1023 put every opcode value twice at the head of a tapscript leaf (OP_SUCCESSx classification). Generator families: op1 (cases 0..511 sweep all 256 opcode values twice, then random: one opcode on operands from boundary pools: empty, "
     "negative zero, +-(2^31-1), +-2^31, 5-byte and non-minimal numbers, 0..520-byte elements, truncated pushes, under-full stacks), arith "
     "(numeric opcodes on neighbouring operands, OP_WITHIN at both bounds), prog (random mostly well-typed programs of 1..60 steps with "
     "IF/NOTIF/ELSE on known conditions, dead branches with arbitrary opcodes, altstack, PICK/ROLL, hashes, junk signatures), cond (balanced "
